@@ -583,6 +583,12 @@ def _c15_probes(rlib, deps, model_cmd, problems, res):
                 row["verdict"] = "twin-broken"
             else:
                 row["verdict"] = "compiles"
+                # literal deviations from the property's list of refused uses (harmless: the whole
+                # type is 'static in type-level require_static mode) — listed in known_findings.txt
+                kf = {"require_static_mode_ignores_variant_attr.accepted": "derive-require-static-mode-accepts-variant-attr",
+                      "require_static_mode_two_lifetimes.accepted": "derive-require-static-mode-accepts-two-lifetimes"}.get(p["name"])
+                if kf:
+                    res.setdefault("known_hits", []).append(dict(property="C15", key=kf, what=p["src"].replace("\n", " ")))
         if pred_cls != p["cls"]:
             problems.append(_problem(f"probe-model-{p['name']}", f"the derive model predicts `{pred_cls}` for probe `{p['name']}`, "
                                      f"expected `{p['cls']}` (model / implementation disagreement)", False, header=hdr, lines=body))
